@@ -26,6 +26,7 @@ type c15RPCAnswer struct {
 	Events  []tlmetadata.Event
 	Long    bool // long poll (no ReturnIfEmpty)
 	Err     string
+	Direct  string // diagnostic for an empty non-waiting answer: what DBV2.JournalEvents returns for the same arguments at that moment
 }
 
 func c15RPCRound(r *verifkit.Run, round, nOps, nSubs int) {
@@ -97,6 +98,10 @@ func c15RPCRound(r *verifkit.Run, round, nOps, nSubs int) {
 					return 0, true
 				}
 				a.Current, a.Events = resp.CurrentVersion, resp.Events
+				if !long && len(resp.Events) == 0 {
+					evs, derr := db.JournalEvents(context.Background(), from, limits[s])
+					a.Direct = fmt.Sprintf("%d events, err=%v", len(evs), derr)
+				}
 				answers[s] = append(answers[s], a)
 				if len(resp.Events) > 0 {
 					if resp.Events[len(resp.Events)-1].Version <= from {
@@ -276,7 +281,11 @@ func c15RPCRound(r *verifkit.Run, round, nOps, nSubs int) {
 		}
 		if n := len(answers[s]); n > 0 && answers[s][n-1].Err == "" && len(answers[s][n-1].Events) == 0 && answers[s][n-1].From < m.maxVer {
 			a := answers[s][n-1]
-			viol("journal/no-progress", fmt.Sprintf("subscriber %d asked for the journal from version %d (limit %d, return-if-empty) and got an empty answer although version %d exists: a paging reader never gets past this point", s, a.From, a.Limit, m.maxVer), map[string]any{"subscriber": s})
+			var tail []string
+			for _, x := range answers[s][max(0, n-6):] {
+				tail = append(tail, fmt.Sprintf("from=%d limit=%d long=%v -> %d events, current=%d, err=%q; direct DBV2.JournalEvents at that moment: %s", x.From, x.Limit, x.Long, len(x.Events), x.Current, x.Err, x.Direct))
+			}
+			viol("journal/no-progress", fmt.Sprintf("subscriber %d asked for the journal from version %d (limit %d, return-if-empty) and got an empty answer although version %d exists: a paging reader never gets past this point", s, a.From, a.Limit, m.maxVer), map[string]any{"subscriber": s, "last_answers": tail})
 		}
 		for id, e := range m.ents {
 			if latest[id].Version != e.Ver {
